@@ -1,7 +1,7 @@
 /- line-protocol handlers for the C13 model (Model/Paint.lean)
 
 `paint  fg cm gid  nN (id kind a b c)*  nL (idx pid|-1)*  nB (gid pid|-1)*  nC gid*`
-   → `<result> <events…>`   result ∈ ok | err:Parse | err:GlyphNotFound | err:Cycle | err:Depth | err:Client | noglyph
+   → `<result> <events…>`   (clip boxes / brushes without payload)   result ∈ ok | err:Parse | err:GlyphNotFound | err:Cycle | err:Depth | err:Client | noglyph
 `visits …same…` → number of paint nodes visited by the model
 `v0 fg first num nL (idx gid|-1)*` → `<result> <events…>`
 `enter id n p0 … p(n-1)` → `ok` | `err:Cycle` | `err:Depth`
@@ -9,6 +9,7 @@
 `visits.bytes <colr hex> fg cm gid` → as `visits`
 `v0.bytes <colr hex> fg gid`        → as `v0` (`noglyph` when there is no v0 base glyph)
 `node.bytes <colr hex> pos`         → `none` | node kind and fields as in `paint` (`resolve_paint` from bytes)
+`bbox.bytes <colr hex> gid v0`      → `noglyph` | `none` | `B:xmin:ymin:xmax:ymax` (`ColorGlyph::bounding_box`, unscaled)
 `grad.bytes <colr hex> pos`         → `none` | the case the gradient arm at `pos` takes (GCase)
 node kinds: 0 colrLayers(first,num) 1 leaf(fills) 2 glyph(gid,child) 3 colrGlyph(gid) 4 transform(child)
             5 composite(src,mode,backdrop)
@@ -18,17 +19,30 @@ import FontVerif.Model.PaintBytes
 namespace FontVerif.Drv.C13
 open FontVerif FontVerif.Paint
 
+/-- `:a:b:c` -/
+def payload (xs : List Int) : String := String.join (xs.map (fun x => ":" ++ toString x))
+
+/-- transform words are not printed (the real matrices are floats computed with `sin`/`cos`): only
+whether a brush transform is present -/
 def evTok : Event → String
-  | .pushT => "T"
+  | .pushT _ => "T"
   | .popT => "t"
   | .pushClipGlyph g => s!"G{g}"
-  | .pushClipBox => "B"
+  | .pushClipBox b => "B" ++ payload b
   | .popClip => "c"
   | .pushLayer m => s!"L{m}"
   | .popLayer m => s!"l{m}"
-  | .fill => "F"
-  | .fillGlyph g ht => s!"g{g}:{if ht then 1 else 0}"
+  | .fill b => "F" ++ payload b
+  | .fillGlyph g bt b => s!"g{g}:{if bt.isSome then 1 else 0}" ++ payload b
   | .cached g => s!"C{g}"
+
+/-- the stream without clip-box / brush payloads (the `paint` / `v0` commands, whose instance is
+decompiled by the harness without them) -/
+def evTokBare : Event → String
+  | .pushClipBox _ => "B"
+  | .fill _ => "F"
+  | .fillGlyph g bt _ => s!"g{g}:{if bt.isSome then 1 else 0}"
+  | e => evTok e
 
 def errTok : Option PErr → String
   | none => "ok"
@@ -41,6 +55,10 @@ def errTok : Option PErr → String
 def showRes (r : Res) : String :=
   let evs := r.2.evs
   errTok r.1 ++ " " ++ (if evs.isEmpty then "-" else " ".intercalate (evs.map evTok))
+
+def showResBare (r : Res) : String :=
+  let evs := r.2.evs
+  errTok r.1 ++ " " ++ (if evs.isEmpty then "-" else " ".intercalate (evs.map evTokBare))
 
 /-- split off `n` groups of `k` ints -/
 def takeGroups (k : Nat) : Nat → List Int → Option (List (List Int) × List Int)
@@ -61,10 +79,10 @@ def nodeOf : List Int → Option (Nat × Node)
     if id < 0 ∨ a < 0 ∨ b < 0 ∨ c < 0 then none else
     match kind with
     | 0 => some (id.toNat, .colrLayers a.toNat b.toNat)
-    | 1 => some (id.toNat, .leaf (a ≠ 0))
+    | 1 => some (id.toNat, .leaf (if a ≠ 0 then some [] else none))
     | 2 => some (id.toNat, .glyph a.toNat b.toNat)
     | 3 => some (id.toNat, .colrGlyph a.toNat)
-    | 4 => some (id.toNat, .transform a.toNat)
+    | 4 => some (id.toNat, .transform id.toNat a.toNat)
     | 5 => some (id.toNat, .composite a.toNat b.toNat c.toNat)
     | _ => none
   | _ => none
@@ -93,7 +111,7 @@ def parseReq (xs : List Int) : Option Req :=
           | some bases, some (cs, []) =>
             if cs.any (fun g => g.any (· < 0)) then none else
             some { client := Client.ofModes fg.toNat cm.toNat, gid := gid.toNat,
-                   inst := Instance.ofTables nodes layers bases (cs.map (fun g => (g.headD 0).toNat)) }
+                   inst := Instance.ofTables nodes layers bases (cs.map (fun g => ((g.headD 0).toNat, []))) }
           | _, _ => none
         | _, _ => none
       | _, _ => none
@@ -101,10 +119,10 @@ def parseReq (xs : List Int) : Option Req :=
 
 def nodeTok : Node → String
   | .colrLayers a b => s!"0 {a} {b} 0"
-  | .leaf f => s!"1 {if f then 1 else 0} 0 0"
+  | .leaf f => s!"1 {if f.isSome then 1 else 0} 0 0"
   | .glyph g ch => s!"2 {g} {ch} 0"
   | .colrGlyph g => s!"3 {g} 0 0"
-  | .transform ch => s!"4 {ch} 0 0"
+  | .transform _ ch => s!"4 {ch} 0 0"
   | .composite s m b => s!"5 {s} {m} {b}"
 
 def gcaseTok : PaintBytes.GCase → String
@@ -140,6 +158,11 @@ def handleBytes (cmd : String) (args : List String) : Option String :=
         match PaintBytes.nodeOfBytes d pos with
         | none => some "none"
         | some n => some (nodeTok n)
+      | "bbox.bytes", [gid, v0] =>
+        match PaintBytes.boundingBoxBytes d gid (v0 ≠ 0) with
+        | none => some "noglyph"
+        | some none => some "none"
+        | some (some b) => some ("B" ++ payload b)
       | "grad.bytes", [pos] =>
         match HandColr.paintRead d pos with
         | .ok fmt =>
@@ -163,7 +186,7 @@ def handle (cmd : String) (args : List String) : Option String :=
       | none => none
       | some r => match paintV1 r.inst r.client r.gid with
         | none => some "noglyph"
-        | some res => some (showRes res)
+        | some res => some (showResBare res)
     | "visits" =>
       match parseReq xs with
       | none => none
@@ -179,8 +202,8 @@ def handle (cmd : String) (args : List String) : Option String :=
           match ls.mapM pairOf with
           | none => none
           | some layers =>
-            some (showRes (paintV0 (Client.ofModes fg.toNat 0) (fun i => (lookup layers i).bind id)
-              first.toNat num.toNat))
+            some (showResBare (paintV0 (Client.ofModes fg.toNat 0)
+              (fun i => ((lookup layers i).bind id).map (fun g => (g, 0))) first.toNat num.toNat))
         | _ => none
       | _ => none
     | "enter" =>
